@@ -121,7 +121,7 @@ func c20(r *core.Run) {
 	want := map[string][]string{
 		"applyAdd":    {"errIndexOutOfRange@len<idx"},
 		"applyRemove": {"ErrNotFound@rawDefault==nil", "errIndexOutOfRange@len<=idx"},
-		"applyCreate": {"errResourceAlreadyExists@", "errResourceAlreadyExists@rawDefault!=nil"},
+		"applyCreate": {"errResourceAlreadyExists@(*github.com/dgraph-io/badger.Txn).Get==nil", "errResourceAlreadyExists@rawDefault!=nil"},
 		"applyChange": {"ErrNotFound@rawDefault==nil"},
 	}
 	sigs := map[string]map[string][]string{}
